@@ -78,6 +78,8 @@ pub struct OBook {
     /// indent the document: a line break and two spaces per level between elements, never inside a paragraph
     /// (LibreOffice writes this when 'size optimisation for ODF' is switched off)
     pub indent: bool,
+    /// with `indent`: line ends are CR LF instead of LF (XML 1.0 2.11: both are line ends; both are white space, production S)
+    pub crlf: bool,
     /// styles of other families reuse the names of the table styles (names are unique per family only) and follow them
     pub style_name_collision: bool,
     /// a table:dde-links block after the sheets: its cached-values table has no name and is not a sheet
@@ -272,11 +274,14 @@ pub fn write_with_content(b: &OBook, content: &[u8], method: Method) -> Vec<u8> 
 
 pub fn write(b: &OBook, method: Method) -> Vec<u8> {
     let c = content_xml(b);
-    write_with_content(b, if b.indent { indent_xml(&c) } else { c }.as_bytes(), method)
+    write_with_content(b, if b.indent { indent_xml_nl(&c, if b.crlf { "\r\n" } else { "\n" }) } else { c }.as_bytes(), method)
 }
 
 /// Insert white space between adjacent tags, except inside text:p (where white space is content).
-pub fn indent_xml(x: &str) -> String {
+pub fn indent_xml(x: &str) -> String { indent_xml_nl(x, "\n") }
+
+/// `indent_xml` with the given line end ("\n" or "\r\n") in the inserted white space only: text content is left as it is.
+pub fn indent_xml_nl(x: &str, nl: &str) -> String {
     let b = x.as_bytes();
     let mut out = String::with_capacity(x.len() * 2);
     let (mut depth, mut p_depth) = (0usize, 0usize);
@@ -289,7 +294,7 @@ pub fn indent_xml(x: &str) -> String {
             let selfc = tag.ends_with("/>") || tag.starts_with("<?") || tag.starts_with("<!--");
             if closing { depth = depth.saturating_sub(1); }
             // a tag directly after another tag (no text in between) gets its own line
-            if i > 0 && b[i - 1] == b'>' && p_depth == 0 { out.push('\n'); for _ in 0..depth { out.push_str("  "); } }
+            if i > 0 && b[i - 1] == b'>' && p_depth == 0 { out.push_str(nl); for _ in 0..depth { out.push_str("  "); } }
             out.push_str(tag);
             if tag.starts_with("<text:p") && (tag.as_bytes()[7] == b'>' || tag.as_bytes()[7] == b' ' || tag.as_bytes()[7] == b'/') && !selfc { p_depth += 1; }
             if tag == "</text:p>" { p_depth -= 1; }
